@@ -348,5 +348,9 @@ def core_mod():
 def unit():
     flavors = Mod('ctr_flavors', 'ctr/src/flavors.rs', items=[
         Sel('trait CtrFlavor', members=TRAIT_MEMBERS, fns=trait_fns())])
-    mods = [flavors, flavor_mod(32, 4, 'u32'), flavor_mod(64, 8, 'u64'), flavor_mod(128, 16, 'u128'), core_mod()]
-    return Unit('ctr', prelude=K.PRELUDE_BLOCK, spec=['steps.rs', 'ctr.rs'], mods=K.DEPS() + mods)
+    # the public byte-level types: the dependency's buffering wrapper (contracts in unit `deps`) over CtrCore
+    lib = Mod('ctr_lib', 'ctr/src/lib.rs', uses='''use super::ctr_core::CtrCore;
+pub mod flavors { pub use super::super::ctr32::*; pub use super::super::ctr64::*; pub use super::super::ctr128::*; }''',
+              items=[Sel('type Ctr128BE'), Sel('type Ctr128LE'), Sel('type Ctr64BE'), Sel('type Ctr64LE'), Sel('type Ctr32BE'), Sel('type Ctr32LE')])
+    mods = [flavors, flavor_mod(32, 4, 'u32'), flavor_mod(64, 8, 'u64'), flavor_mod(128, 16, 'u128'), core_mod(), lib]
+    return Unit('ctr', prelude=K.PRELUDE_BLOCK, spec=['steps.rs', 'ctr.rs', 'wrapper_defs.rs'], mods=K.DEPS(wrapper=True) + mods)
